@@ -485,15 +485,24 @@ def st_listing():
         for i in range(len(lines) - 1):
             if repeat[i] and "\t" in lines[i] and "\t" in lines[i + 1]:
                 lines[i + 1] = lines[i].split("\t")[0] + "\t" + lines[i + 1].split("\t", 1)[1]
+        # a listing of hundreds to thousands of lines (the drawn block repeated): counters, caches or limits that an
+        # importer keeps over a whole file act here and nowhere in a listing of a dozen lines
+        lines = lines * t[4]
         return {"kind": "listing", "text": sep.join(lines) + (sep if final else "")}
 
     return st.tuples(st.lists(line(), min_size=0, max_size=12), st.sampled_from(["\n", "\n", "\r\n"]), st.booleans(),
-                     st.lists(st.sampled_from([False, False, True]), min_size=12, max_size=12)).map(assemble)
+                     st.lists(st.sampled_from([False, False, True]), min_size=12, max_size=12),
+                     st.sampled_from([1] * 13 + [30, 60, 250])).map(assemble)
 
 
 def classify_listing(case):
     c = case.get("_classes", {"valid": 0, "near": 0, "other": 0})
     labs = ["listing"] + [k for k, v in c.items() if v]
+    n = case.get("text", "").count("\n")
+    if n >= 100:
+        labs.append("listing-of-100+-lines" if n < 1000 else "listing-of-1000+-lines")
+        if c["near"] + c["other"] >= 100:
+            labs.append("100+-unparsable-lines-in-one-listing")
     return c["valid"] >= 1 and c["near"] >= 1 and c["other"] >= 1, labs
 
 
